@@ -2729,3 +2729,26 @@ try:
     _glpk.options.update(msg_lev="GLP_MSG_OFF", mip_gap=0.005)
 except ImportError:
     pass""", "R-C08-3")
+
+
+# =============================================================================================
+# round 12
+# =============================================================================================
+_ALL = [f"C{_i:02d}" for _i in range(1, 21)]
+for _prop, _rule, _patch, _what in (
+        ("C17", "R-C17-4", "broken-continuum-weak-proxy", "the alignment holds its continuum through weakref.proxy: not kept once the caller drops it"),
+        ("C01", "R-C01-4", "broken-unitary-alignments-by-bounds", "the unitary alignments routed through a dict keyed by bounds: one per key survives"),
+        ("C10", "R-C10-2", "broken-unitary-alignments-by-bounds", ""),
+        ("C17", "R-C17-4", "broken-unitary-alignments-by-bounds", ""),
+        ("C07", "R-C07-3", "broken-arrays-by-annotator-size", "the unit arrays built over the annotators sorted by number of units: array i is not annotator i"),
+        ("C01", "R-C01-3", "broken-arrays-by-annotator-size", ""),
+        ("C02", "R-C02-2", "broken-arrays-by-annotator-size", ""),
+        ("C19", "R-C19-3", "broken-shuffle-matrix-in-place", "in-place updates of the transition matrix that do not vanish at magnitude 0"),
+        ("C06", "R-C06-8", "broken-pool-size-chunks", "the number of samples rounded to a multiple of the pool size read back from the executor")):
+    VARIANTS.append(dict(prop=_prop, id=f"r12/{_patch}", kind="M", rule=_rule, patch=_os.path.join(_HP, f"{_patch}.diff"), note=_what))
+for _patch, _what in (("benign-shuffle-matrix-in-place", "the same formula as a run of in-place updates of the fresh identity matrix"),
+                      ("benign-pool-size-logged", "the pool size read back from the executor only to be logged"),
+                      ("benign-continuum-transparent-property", "Alignment.continuum behind a getter / setter pair that stores and returns it unchanged"),
+                      ("benign-arrays-keys-loop", "the array builder walks the keys of _annotations and looks the units up")):
+    for _p in _ALL:
+        VARIANTS.append(dict(prop=_p, id=f"r12/{_patch}", kind="B", rule="", patch=_os.path.join(_HP, f"{_patch}.diff"), note=_what))
